@@ -1,4 +1,8 @@
-"""R9 closure inline (DESIGN.md section 2.2):  `let [mut] f = [move] |p, q: T| B;` that never escapes
+"""Extra catalogue rules of units U-ISEARCH / U-SHLOOKUP:  R9 (closure inline), R4u (name a `for _ in` loop variable),
+R4t (`for [&]x in E.iter().take(N)` -> index loop).  All three are syntactic, general, and refuse (RewriteError -> undecided)
+whenever a side condition is not met.
+
+R9 closure inline (DESIGN.md section 2.2):  `let [mut] f = [move] |p, q: T| B;` that never escapes
 ->  each call `f(a, b)` becomes `{ let vx_f_0 = a; let vx_f_1 = b; let p = vx_f_0; let q: T = vx_f_1; B }`
 (a single parameter is bound directly: `{ let p = a; B }`), and the `let f = ...;` statement is removed.
 
